@@ -217,7 +217,8 @@ enum { EXP_FAIL = 0,           /* the handshake must fail somewhere */
 typedef struct {
     char     name[96];
     int      expect;
-    int      alert;             /* expected alert description when expect == EXP_PEER_ABORTS_AT_HELLO and != 0 */
+    int      alert;             /* expect == EXP_PEER_ABORTS_AT_HELLO: > 0 this alert description; -1: an alert of hello validation
+                                   (illegal_parameter / handshake_failure / protocol_version), not a later decrypt/MAC failure; 0 any */
     char     klass[40];         /* class of the rewrite (stable, low-cardinality: used in outcome / violation keys) */
 } rw_info_t;
 
@@ -362,7 +363,9 @@ static int hello_rewrites(hello_t *h, const rw_ctx_t *cx, int want, rw_info_t *i
             if (off || cx->repl_suites[j] == H->suites[0]) continue;
             RW_BEGIN("%s.suite %04x->%04x (NOT offered)", who, H->suites[0], cx->repl_suites[j])
                 h->suites[0] = cx->repl_suites[j];
-                info->expect = EXP_PEER_ABORTS_AT_HELLO;   /* RFC 5246 7.4.1.3 / RFC 8446 4.1.3: must be one of the offered suites */
+                /* RFC 5246 7.4.1.3 / RFC 8446 4.1.3: must be one of the offered suites.  (For a HelloRetryRequest the final
+                   ServerHello is what selects the suite, so only failure is required there.) */
+                if (!hello_is_hrr(h)) { info->expect = EXP_PEER_ABORTS_AT_HELLO; info->alert = -1; }
             RW_END("selected-suite-not-offered");
         }
         RW_BEGIN("%s.compression:=1", who) h->comp[0] = 1; RW_END("compression");
